@@ -706,6 +706,15 @@ func c19(r *h.Result, rng *h.Rng, tier string, replay string) error {
 		if err != nil {
 			return err
 		}
+		var ck struct {
+			Replay c19CChain `json:"replay"`
+		}
+		if err := json.Unmarshal(b, &ck); err == nil && strings.HasPrefix(ck.Replay.Kind, "cluster:") {
+			r.Stream("replay of one cluster chain")
+			cx := &c19CRunner{r: r, keys: keys}
+			cx.run(ck.Replay)
+			return cx.flush()
+		}
 		var f struct {
 			Replay c19Chain `json:"replay"`
 		}
@@ -729,7 +738,8 @@ func c19(r *h.Result, rng *h.Rng, tier string, replay string) error {
 	}
 	r.Rule = "configurations: cluster/dist/policy/days/0-3 tiers drawn from boundary sets (0, 1 ns, 59/60/61 s, 1 day ± 1 s, 2^31 ± 1 s, 2^32 s, int64 extremes, negative; disks and policies with %, spaces, quotes, non-ASCII) mixed with uniform values; " +
 		"per configuration: EVERY statement of its run as failure point x {fails without effect, fails after taking effect}, from the fresh database and from a database converged on another configuration, each followed by the same and by a changed configuration; " +
-		"change sequences of <= 6 configurations (mutations, change-back, unchanged) with random interruptions; non-trivial = a run with a fault point, or a sequence of > 1 run; distinct by (configuration, start, fault)"
+		"change sequences of <= 6 configurations (mutations, change-back, unchanged) with random interruptions; non-trivial = a run with a fault point, or a sequence of > 1 run; distinct by (configuration, start, fault). " +
+		"cluster-chain / ctrl-rotate: a case = a chain of runs on a fresh cluster of N = 1..3 nodes, each run with its configuration, the node it is connected to and a failure point (statement, set of nodes it still took effect on); compared per run on (ok, parsed statement log, per-node local settings records, TTLs and policies)"
 	r.Stream("chain: maintenance.Rotate on fakes.C19Conn vs Ctrl.Rotate.run — per run: ok flag, parsed statement log, state {settings marker per group, TTL and storage policy per table}")
 	if err := c19Fp(r, rng.Fork(), nFp); err != nil {
 		return err
@@ -813,6 +823,12 @@ func c19(r *h.Result, rng *h.Rng, tier string, replay string) error {
 		}
 	}
 	if err := x.flush(); err != nil {
+		return err
+	}
+	if err := c19Cluster(r, rng.Fork(), tier, keys); err != nil {
+		return err
+	}
+	if err := c19CtrlRotate(r, rng.Fork(), tier, keys); err != nil {
 		return err
 	}
 	r.Exhaustive = true
